@@ -23,7 +23,7 @@ RULE = (
     "(zero/ones/min/max, random) are encoded with the reference encoder AND the real S_k Python encoder (must agree), "
     "decoded by the code generated from S_i - Python always, the C decoder and the interpreted Go decoder on a drawn sample "
     "- and compared with the PROJECTION of the value onto S_i (fields whose numbers exist there, first cap_old elements), so "
-    "no skip arithmetic is trusted on the oracle side. evaluations = (older message, value, target) decodes. Non-trivial: the "
+    "no skip arithmetic is trusted on the oracle side. Afterwards each older Python receiver reads, in ONE process, its own version's data and the data of every later version interleaved (i, i+1, .., k, i, k, .., i+1): no decode may depend on what was read before. evaluations = (older message, value, target) decodes. Non-trivial: the "
     "pair differs in a region that is FOLLOWED, in S_i's wire order, by at least one older leaf (a wrong skip distance is "
     "observable); distinct by (S_i digest, S_k digest, message, value, target). Part `wide`: the same oracle on directed histories "
     "whose 16-bit prefix VALUES span the 16-bit range at every bit alignment: an extensible message of about 2**k bits or an "
@@ -400,6 +400,32 @@ def run_case(c: Case, stats: Stats) -> None:
                         raise Violation(f"version {i} C decoder misreads data of version {newest} for {mi.name} (steps {c.steps[i:]}): {bad} fences={r.fences_ok()}", {"value": v, "bytes": data.hex()}, signature="c-decode")
                     if followed:
                         stats.mark_nontrivial(digs[i], digs[newest], mi.name, v, "c")
+        # one receiver, several senders: a long-lived S_i process reads its own version's data and the data of EVERY later
+        # version, interleaved (what a fleet in the middle of an upgrade does); nothing read earlier may influence a decode
+        for i in range(newest):
+            for j, mi in enumerate(c.msgs[i]):
+                order = [i] + list(range(i + 1, newest + 1)) + [i] + list(range(newest, i, -1))
+                for sidx in order:
+                    ms = c.msgs[sidx][j]
+                    for vname, v in S.basis_values(ms, 0)[1:]:
+                        if vname not in ("ones", "alt0", "alt1"):
+                            continue
+                        data = ref.encode(ms, v)
+                        expect = ref.project(mi, ms, v)
+                        fresh = pyexec.new_message(mods[i], mi)
+                        try:
+                            fresh.decode(bytearray(data))
+                            got = pyexec.get_value(fresh, mi)
+                        except Exception as e:
+                            raise Violation(f"version {i} Python decoder raised {type(e).__name__}: {e} on data of version {sidx} for {mi.name} after reading other versions' data (steps {c.steps})", {"value": v, "bytes": data.hex()}, signature=f"py-mixed-exc:{type(e).__name__}")
+                        stats.evaluations += 1
+                        if got != expect:
+                            raise Violation(
+                                f"version {i} Python decoder misreads data of version {sidx} for {mi.name} after having read data of other versions in the same process (order {order}, steps {c.steps}): {_diff(mi, got, expect)}",
+                                {"value": v, "bytes": data.hex()},
+                                signature="py-decode-mixed-senders",
+                            )
+        stats.count("mixed_senders")
         stats.sample({"steps": c.steps, "targets": c.targets, "oldest": comp[0].texts if len(str(comp[0].texts)) < 1200 else "(large)", "newest": comp[-1].texts if len(str(comp[-1].texts)) < 1500 else "(large)"})
     finally:
         for cu in comp:
